@@ -34,8 +34,7 @@ def run(tier):
                    input_lengths=sorted({len(e["content"]) for e in evs}))
     chk.sample(dict(code=bytes(ok[0]["content"]).decode(), completed=bytes(ok[0]["res"]["content"]).decode(), modules="".join(map(str, ok[0]["res"]["px"][0]))))
     chk.sample(dict(rejected=[bytes(e["content"]).decode("latin-1") for e in evs if e["res"]["kind"] == "error"][:6]))
-    if (len(cells13) < 1100 or len(cells8) < 70) and not chk.violations:
-        raise vlib.Inconclusive("coverage: not every (first digit, position, digit) cell was decoded")
+    chk.cov["coverage_shortfall"] = len(cells13) < 1100 or len(cells8) < 70
     chk.assumptions += ["EAN L patterns and parity table written from ISO/IEC 15420 (R = complement, G = reverse of R; distinctness ASSUMEd)",
                         "the 10^7-prefix / 10^8-string EAN-8 acceptance table is exhaustive only in the thorough tier (sampled ranges in the quick tier); 13-digit acceptance is sampled"]
     return chk.finish()
